@@ -4,6 +4,7 @@ package main
 
 import (
 	"fmt"
+	"os"
 	"go/types"
 	"sort"
 	"strings"
@@ -133,6 +134,11 @@ func hasRecover(fn *ssa.Function) bool {
 
 // ---------- contracts at call sites ----------
 
+// coverCalls: emit a cover obligation behind every contract call (thorough tier, or GOVC_COVER_CALLS=1);
+// coverBlocks: audit listing of unreached basic blocks (GOVC_COVER_BLOCKS=1, govc verify only).
+var coverCalls = os.Getenv("GOVC_COVER_CALLS") != ""
+var coverBlocks = os.Getenv("GOVC_COVER_BLOCKS") != ""
+
 func (ex *Exec) callContract(st *State, fr *Frame, c ssa.Instruction, fn *ssa.Function, fc *FuncContract, args []Value, bind []Value) []Outcome {
 	ex.usedCtr[funcKey(fn)] = true
 	if fc.Trusted {
@@ -210,6 +216,20 @@ func (ex *Exec) callContract(st *State, fr *Frame, c ssa.Instruction, fn *ssa.Fu
 			continue // a known finding: this postcondition does not hold, so callers do not get it
 		}
 		ex.assumeClauseLenient(st, env, en)
+	}
+	if coverCalls && c != nil && !ex.inDiscovery() && !st.dead {
+		// vacuity guard: the state behind a contract call (its success continuation when the callee returns an
+		// error) must be satisfiable on at least one path - contradictory assumed postconditions would make
+		// everything behind the call vacuous
+		name := ex.oblName(fr, "covercall", fmt.Sprintf("%s@%s", shortFuncName(fn), ex.L.instrDetail(c)))
+		hyps := st.pc.list()
+		// with an error result: the SUCCESS continuation must be satisfiable on at least one path
+		if n := len(rets); n > 0 && res.At(n-1).Type().String() == "error" {
+			if iv, ok := rets[n-1].(VIface); ok && iv.Nil != nil {
+				hyps = append(append([]*Term{}, hyps...), iv.Nil)
+			}
+		}
+		ex.obligs = append(ex.obligs, &Oblig{Name: name, Class: "covercall", Func: ex.topName(), Clause: "state after the call is satisfiable", Hyps: hyps, Cover: true, st: st.clone(), entry: ex.entry})
 	}
 	return []Outcome{{st, rets}}
 }
